@@ -8,6 +8,7 @@ import (
 	"strings"
 	"testing"
 
+	"github.com/cosmos72/gomacro/fast"
 	"pgregory.net/rapid"
 
 	"verif/harness/gobatch"
@@ -26,6 +27,10 @@ func TestMain(m *testing.M) {
 		"non-trivial when the kind is an ambiguity or a method-set violation")
 	rec.Assume("oracle: gc toolchain at language level go1.18 for valid programs (trace formatted by the same compiled recorder on both sides); go/types (go1.18) decides which selector / method-set uses are invalid")
 	rec.Assume("documented limitations excluded by construction: no interface-to-interface type assertion or type-switch case with an interface type; no value of an interpreted named type with methods handed to compiled code except through the proxies of fmt.Stringer, error, sort.Interface; no typed constant converted to an interpreted interface")
+	// warm-up outside any time budget: the first fast.New() of a process loads the whole
+	// import table (0.7 s idle, minutes on a starved machine) and would otherwise be
+	// charged to the first generated program
+	fast.New()
 	knownOn = rec.Known
 	countExcluded = rec.Excluded
 	countLabel = rec.Label
